@@ -3,7 +3,7 @@
    and plan independence in one statement). *)
 Require Import KV.Sparql.Base KV.Sparql.Syntax KV.Sparql.MuProofs KV.Sparql.JoinProofs KV.Sparql.Algebra KV.Sparql.Engine
         KV.Sparql.PlanEquiv KV.Sparql.Sem KV.Sparql.ScanProofs KV.Sparql.HashProofs KV.Sparql.SemProofs KV.Sparql.ExecLemmas
-        KV.Sparql.IdemProofs KV.Sparql.GroupProofs.
+        KV.Sparql.BridgeProofs KV.Sparql.ModifierProofs KV.Sparql.AggProofs KV.Sparql.IdemProofs KV.Sparql.GroupProofs.
 Require Import Lia Permutation.
 
 (* the incoming rows bind at most the variables of inb *)
@@ -139,11 +139,14 @@ Section Main.
       destruct p; try discriminate. cbn [implementsb] in IMP. apply andb_true_iff in IMP. destruct IMP as [Es IMP].
       apply subspec_eqb_eq in Es. subst s0. cbn [ok_in] in OK.
       apply andb_true_iff in OK. destruct OK as [SSub OK].
-      rewrite exec_XSubquery. cbn [sem]. apply join_perm_r. apply simple_finalize_perm; auto.
-      rewrite <- (join_unit_l (sem st ev active l)) by apply sem_wf.
-      eapply (IHl p IMP []); eauto.
-      + constructor; [exact I | constructor].
-      + intros a x w [Ha|[]] L. subst. discriminate.
+      rewrite exec_XSubquery. cbn [sem]. apply join_perm_r.
+      assert (PI : exec st ev active p [[]] ≡ₚ sem st ev active l).
+      { rewrite <- (join_unit_l (sem st ev active l)) by apply sem_wf.
+        eapply (IHl p IMP []); eauto.
+        + constructor; [exact I | constructor].
+        + intros a x w [Ha|[]] L. subst. discriminate. }
+      apply order_free_finalize_perm; auto.
+      eapply all_wf_perm; [apply Permutation_sym; exact PI | apply sem_wf].
     - (* Bind *)
       destruct p; try discriminate. cbn [implementsb] in IMP.
       apply andb_true_iff in IMP. destruct IMP as [IMP0 IMP]. apply andb_true_iff in IMP0. destruct IMP0 as [Ea Ev].
